@@ -724,6 +724,58 @@ def rule_window(rep, S):
 
 
 # ---------------------------------------------------------------------------------------------------------------------
+# C01.deleg
+FAMILIES = {"find", "rfind", "find_first_of", "find_first_not_of", "find_last_of", "find_last_not_of", "compare", "replace", "insert", "append", "assign", "erase"}
+ALSO = {"operator+=": {"append"}, "operator=": {"assign"}, "compare": {"compare", "compare_impl"}, "push_back": {"append", "insert"}, "substr": set()}
+
+
+def rule_deleg(rep, S):
+    """pure forwarding overloads: same-named worker, every parameter forwarded, a buffer always travels with the size of the same object"""
+    R = "C01.deleg"
+    d = S.d
+    n = 0
+    for fn in S.fns:
+        b = ir.body(fn)
+        ks = ir.kids(b) if b else []
+        if len(ks) != 1 or ks[0].get("kind") != "ReturnStmt" or not ir.ekids(ks[0]):
+            continue
+        e = ir.strip(ir.ekids(ks[0])[0])
+        callee = fs.this_member_call(e)
+        own = fn.get("name")
+        if callee is None or (own not in FAMILIES and own not in ALSO):
+            continue
+        n += 1
+        lab = "%s::%s" % (S.tag, S.label(fn))
+        allowed = ALSO.get(own, set()) | ({own} if own in FAMILIES else set())
+        if own == "compare":
+            allowed = {"compare", "compare_impl"}
+        t = ir.sx(e)
+        args = t[2:]
+        if callee not in allowed:
+            rep.violates(R, lab, "forwards to its own worker", where=d.where(e), detail="`%s` forwards to `%s(...)`; the overloads of %s must share the worker of the same name" % (own, callee, own))
+            continue
+        problems = []
+        # every parameter is forwarded (a dropped position/count silently becomes a default)
+        for p in ir.params(fn):
+            if not any(s_ == ("ref", p.get("name")) for a in args for s_ in ir.subterms(a)):
+                problems.append("parameter `%s` is not forwarded" % p.get("name"))
+        # buffers travel with the size of the same object
+        for a in args:
+            for s_ in ir.subterms(a):
+                if s_[0] == "call" and s_[1][0] == "mem" and s_[1][2] in ("data", "c_str") and len(s_) == 2 and s_[1][1] != ("this",):
+                    obj = s_[1][1]
+                    sizes = [x for b_ in args for x in ir.subterms(b_) if x[0] == "call" and x[1][0] == "mem" and x[1][2] in ("size", "length") and len(x) == 2 and x[1][1] != ("this",)]
+                    if sizes and not any(x[1][1] == obj for x in sizes):
+                        problems.append("the characters of `%s` are passed with the size of `%s`" % (ir.show(obj), ir.show(sizes[0][1][1])))
+        if problems:
+            rep.violates(R, lab, "forwards to its own worker", where=d.where(e), detail="; ".join(problems))
+        else:
+            rep.holds(R, lab, "forwards to its own worker", where=d.where(e), detail="-> %s(%s)" % (callee, ", ".join(ir.show(a)[:30] for a in args)))
+    if n < 40:
+        rep.broke("C01.deleg: only %d forwarding overloads found" % n)
+
+
+# ---------------------------------------------------------------------------------------------------------------------
 def run(tier):
     rep = Report("C01", tier, "other",
                  "Structural necessary conditions only (equivalence with std::basic_string over all histories is a statement about run-time contents and is NOT "
@@ -746,6 +798,8 @@ def run(tier):
     rep.rule("C01.obj", "a position parameter is offset into / subtracted from the size of the same object it was validated against (clamps like min(count, X.size() - pos) "
                         "must use the X whose characters are read), otherwise substrings of the wrong length are compared/copied")
     rep.rule("C01.pub", "the length a mutator publishes is exactly the value the capacity check saw (result length, not an intermediate sum), so operations whose result fits are not rejected")
+    rep.rule("C01.deleg", "every pure forwarding overload of the search/compare/replace/insert/append/assign/erase families calls the worker of its own name, forwards every "
+                          "parameter, and passes a string's characters together with the size of that same string")
     rep.rule("C01.window", "in search loops stepping a cursor and a remaining count together, cursor + remaining is invariant")
     insts = INSTS[tier]
     d = cj.dump(fs.driver(insts), "xtl::")
@@ -762,6 +816,7 @@ def run(tier):
         rule_len(rep, S)
         rule_bound(rep, S)
         rule_window(rep, S)
+        rule_deleg(rep, S)
         from .c02 import rule_pos, rule_pub
         rule_pos(rep, S, "C01.obj")
         rule_pub(rep, S, "C01.pub")
